@@ -44,3 +44,5 @@ META = dict(
                 "block keeps its origin when realloc returns the same pointer). Thread interleavings are sampled."),
     technique="runtime monitoring: fill patterns + interval registry + accounting model + page interposition + TSan/ASan/LSan",
 )
+
+CFG["rule"] += (" " + 'Additions: half of the threaded scenarios keep a second single-threaded allocator instance alive and in use on the main thread; every 64th sequential case requests 2^31-1 .. 2^33+513 bytes through a parent that records request sizes (address-space-only mappings); once per -O2 stage 65 600+ completely full pages of one class are kept alive and late pages emptied.')
